@@ -84,6 +84,14 @@ func main() {
 	if p := cfg.paramInt("gomaxprocs", 0); p > 0 {
 		runtime.GOMAXPROCS(p)
 	}
+	if cfg.paramInt("oldtimers", 0) > 0 {
+		// timers as a main module with a go directive below 1.23 gets them
+		// (buffered channel, a stale expiry may be left in it) - the library's
+		// own go.mod says 1.13, its suite runs that way; this harness's
+		// module says 1.23. The runtime re-reads the setting for every timer
+		// created from here on, and no raft timer exists yet.
+		os.Setenv("GODEBUG", "asynctimerchan=1")
+	}
 	start := time.Now()
 	res := &Result{Engine: cfg.Engine, Scenario: cfg.Scenario, Seed: cfg.Seed, Notes: map[string]string{}, Counters: map[string]int64{}}
 	rc, err := newRecorder(filepath.Join(cfg.Out, "events.jsonl"))
